@@ -1998,8 +1998,9 @@ func (l *lexer) lexRuneLiteral() error {
 	if len(l.src) <= p || l.src[p] != '\'' {
 		return l.errorf("rune literal not terminated")
 	}
+	cols := utf8.RuneCount(l.src[:p+1])
 	l.emit(tokenRune, p+1)
-	l.column += p + 1
+	l.column += cols
 	return nil
 }
 
